@@ -1107,8 +1107,6 @@ class LWorld:
         for r in rows_before:
             if r[0] in cands and nowv < r[1]:
                 self.fails.append(('early:legacy-poll', 'legacy poll at %d selected call %d due at %d' % (nowv, r[0], r[1])))
-            if r[0] in cands and r[2]:
-                self.fails.append(('legacy-recapture', 'legacy poll selected call %d that is already being processed' % r[0]))
         must = [r[0] for r in rows_before if r[1] <= nowv and not r[2]]
         if (batch is None or len(must) <= batch) and any(j not in cands for j in must):
             self.fails.append(('legacy-poll-misses-due-call', 'legacy poll at %d did not select due calls %s' % (
